@@ -68,7 +68,8 @@ def _gen_script(rng, i):
     s['pool'] = {'max_watermark': rng.choice([1, 1, 2]), 'min_watermark': rng.choice([0, 1]),
                  'max_queue_len': rng.choice([0, 1, 2, 1000])}
   template = rng.choice(['random', 'random', 'preopen', 'queue', 'connect', 'latereply', 'faults', 'members', 'sendq', 'pingrace',
-                         'agedtags' if kind == 'mux' else 'random', 'opentick', 'emptyset', 'bigstall', 'deadq', 'twinlate'])
+                         'agedtags' if kind == 'mux' else 'random', 'opentick', 'emptyset', 'bigstall', 'deadq', 'twinlate', 'jitterhang',
+                         'pinglate' if kind == 'mux' else 'bigstall', 'dupq' if kind == 'mux' else 'deadq'])
   steps = s['steps']
   nc = [0]
 
@@ -138,6 +139,55 @@ def _gen_script(rng, i):
     issue(rng.choice([203, 1003]))
     steps.append(['adv', 20])
     steps += [['reply', 0], ['reply', 0], ['reply', 0], ['adv', 50]]
+  elif template == 'pinglate':
+    # the peer answers pings late (0.5-0.9 s); around the periodic ping (30-40 s after the open) unanswered calls
+    # with short deadlines are issued back to back, so that some deadline falls inside the ping round trip
+    s['nep'] = 1
+    s['plans'] = [['ok', 0]]
+    s['auto'] = None
+    s['ping_delay'] = rng.choice([500, 800, 900])
+    steps.append(['adv', 29000])
+    for _ in range(44):
+      issue(rng.choice([203, 107]))
+      steps.append(['adv', 300])
+    steps.append(['adv', 2000])
+  elif template == 'dupq':
+    # an answered tag is re-used by a request whose write is blocked (or which waits behind it); the peer repeats
+    # the old reply for that tag; the request is then written, stays unanswered and times out on the open connection
+    s['nep'] = 1
+    s['plans'] = [['ok', 0]]
+    s['auto'] = None
+    steps.append(['adv', 300])
+    k = rng.randint(1, 2)
+    for _ in range(k):
+      issue(1003)
+    steps.append(['adv', 10])
+    for _ in range(k):
+      steps.append(['reply', 0])
+    steps.append(['adv', 10])
+    steps.append(['stall', 500])
+    for _ in range(k):
+      issue(rng.choice([1003, 2003]))
+    steps.append(['adv', 10])
+    for j in range(k):
+      steps.append(['dup', j])
+    steps.append(['adv', 600])
+    issue(1003)
+    steps.append(['adv', 10])
+    steps.append(['reply', k])
+    steps.append(['adv', 2500])
+  elif template == 'jitterhang':
+    # minutes of light traffic across the aperture's jitter rounds (120-240 s apart) while every NEW connect
+    # hangs: the member a jitter round brings in never finishes opening; calls keep their deadlines
+    s['nep'] = rng.choice([2, 3])
+    s['plans'] = [['ok', 0] for _ in range(s['nep'])]
+    s['auto'] = rng.choice([None, None, 20])     # mostly unanswered: each call is in flight until its deadline
+    steps.append(['adv', 100000])
+    for i in range(s['nep']):
+      steps.append(['plan', i, ['hang']])
+    for _ in range(rng.randint(22, 28)):
+      issue(rng.choice([5003, 5003, 1003]))
+      steps.append(['adv', rng.choice([5000, 6000, 7000])])
   elif template == 'twinlate':
     # a second client of the same service to the same server is created while the first has calls in flight;
     # calls and replies then alternate between the two connections (calls whose number is a multiple of 3 use it)
@@ -579,6 +629,12 @@ def run_case(script):
       finally:
         d._dispatch_timeout = old
       rec.track(c, ar)
+    elif k == 'dup':
+      # the peer repeats the reply it gave to the op[1]-th request it answered
+      done = [p for p in peer.requests if p.answered and not p.conn.closed and p.reply is not None and p.tag is not None]
+      if done and script['kind'] == 'mux':
+        p = done[op[1] % len(done)]
+        peer.send_frame(p.conn, peers.RDISPATCH, p.tag, b'\x00\x00\x00' + p.reply)
     elif k == 'mktwin':
       if h2 is None:
         h2 = build_client(script, loop, net)      # opens while the first client has calls in flight
